@@ -74,7 +74,7 @@ def declare_arrivals(spec):
     add(spec, "ArrivalNode.send_individual",
         types={"next_node": "obj:Node", "next_individual": IND},
         requires=["prio_ok(next_node, next_individual)", "cls_ok(next_node, next_individual)",
-                  ("C01:customer-is-nowhere", "loc(next_individual) is None"), "not next_individual.server"],
+                  ("C01:customer-is-nowhere", "loc(next_individual) is None"), "not next_individual.server", ("C10:a-new-customer-has-a-clean-slate", "next_individual.service_time is False and next_individual.service_start_date is False and next_individual.service_end_date is False")],
         modifies=["*"], allocates="any", raises=[("ValueError", "True")],
         at_call={"accept": [
             ("C14:accepted-counter", "self.number_accepted_individuals == old(self.number_accepted_individuals) + 1"),
@@ -85,7 +85,7 @@ def declare_arrivals(spec):
     add(spec, "ArrivalNode.decide_baulk",
         types={"next_node": "obj:Node", "next_individual": IND},
         requires=["self.next_class is not None", "prio_ok(next_node, next_individual)", "cls_ok(next_node, next_individual)",
-                  ("C01:customer-is-nowhere", "loc(next_individual) is None"), "not next_individual.server",
+                  ("C01:customer-is-nowhere", "loc(next_individual) is None"), "not next_individual.server", ("C10:a-new-customer-has-a-clean-slate", "next_individual.service_time is False and next_individual.service_start_date is False and next_individual.service_end_date is False"),
                   INV("float_clock(next_node)"), "len(self.simulation.nodes) >= 2",
                   INV("cls_is(self.simulation.nodes[len(self.simulation.nodes) - 1], 'ExitNode')")],
         modifies=["*"], allocates="any", raises=[("ValueError", "True")],
@@ -109,7 +109,7 @@ def declare_arrivals(spec):
     add(spec, "ArrivalNode.release_individual",
         types={"next_node": "obj:Node", "next_individual": IND},
         requires=["self.next_class is not None", "prio_ok(next_node, next_individual)", "cls_ok(next_node, next_individual)",
-                  ("C01:customer-is-nowhere", "loc(next_individual) is None"), "not next_individual.server",
+                  ("C01:customer-is-nowhere", "loc(next_individual) is None"), "not next_individual.server", ("C10:a-new-customer-has-a-clean-slate", "next_individual.service_time is False and next_individual.service_start_date is False and next_individual.service_end_date is False"),
                   INV("float_clock(next_node)"), "len(self.simulation.nodes) >= 2",
                   INV("cls_is(self.simulation.nodes[len(self.simulation.nodes) - 1], 'ExitNode')")],
         modifies=["*"], allocates="any", raises=[("ValueError", "True")],
